@@ -794,9 +794,16 @@ func eqnil(t types.Type, x, y value) bool {
 				return (x != nil) == (y != nil)
 			case *closure:
 				return true
+			case nativeFunc:
+				return x != nil
 			}
 		case *closure:
 			return (x != nil) == (y.(*ssa.Function) != nil)
+		case nativeFunc:
+			if yf, ok := y.(*ssa.Function); ok {
+				return yf != nil // a native func value is never nil
+			}
+			return false
 		case []value:
 			return (x != nil) == (y.([]value) != nil)
 		}
